@@ -25,7 +25,8 @@ ASSUMPTIONS = ["'once its reconnect wait has elapsed' = at the first timer check
 TIMEOUT = {"quick": 900, "thorough": 3600}
 SCTP_CLONES = {"quick": ['rand3', 'exh9'], "thorough": ['rand10', 'rand11', 'exh15']}
 OUTCOMES = ["refused", "inprogress_ok_gone", "inprogress_fail", "cea_rejected", "cea_timeout", "gone", "error", "dpr",
-            "inbound_dup_closed", "pending_inbound_lost", "inbound_dup_then_dpr", "write_error"]
+            "inbound_dup_closed", "pending_inbound_lost", "inbound_dup_then_dpr", "write_error",
+            "inbound_then_gone"]
 FLAGSETS = [
     dict(persistent=True, always_reconnect=False, reconnect_wait=3, addr=True),
     dict(persistent=True, always_reconnect=True, reconnect_wait=2, addr=True),
@@ -200,10 +201,32 @@ class Case:
                     return False
             else:
                 if self.loss_by_dpr and not f["always_reconnect"]:
-                    # policy forbids dialling: verify over a horizon, then end the history
+                    # policy forbids dialling: verify over a horizon ...
                     for _ in range(self.W + 3):
                         self.tick_and_judge(1, "after-dpr")
-                    return False
+                    if outcome != "inbound_then_gone":
+                        return False            # ... then end the history,
+                    # or the peer comes back by itself, and *that* connection is lost without a DPR: a new loss,
+                    # to which the old disconnect reason does not apply
+                    p = h.inbound(ip="10.1.0.1", port=50004)
+                    h.settle()
+                    p.send(M.cer(PEER, self.REALM, auth=[4], hbh=1, e2e=4))
+                    h.settle()
+                    fr = p.drain()
+                    if not fr or fr[-1].result_code != 2001:
+                        return False
+                    self.loss_by_dpr = False
+                    self.t_loss = None
+                    self.tick_and_judge(1, "back-inbound")
+                    p.reset_conn()
+                    h.settle()
+                    self.new_connects()
+                    self.note_loss()
+                    self.run.cov["inbound_return_after_dpr"] = self.run.cov.get("inbound_return_after_dpr", 0) + 1
+                    q = h.connect_script.get(addr)
+                    if q:
+                        q.pop()         # the connect outcome scripted for this step was not used: no dial happened
+                    return True
                 if not self.wait_for_dial():
                     return False
         else:
@@ -216,7 +239,7 @@ class Case:
                                  else "reconnect.dialled_without_addresses", {})
             # a peer the node never dials: it connects inbound instead
             if outcome in ("refused", "inprogress_ok_gone", "inprogress_fail", "cea_rejected", "cea_timeout",
-                           "pending_inbound_lost"):
+                           "pending_inbound_lost", "inbound_then_gone"):
                 outcome = "gone"
             p = h.inbound(ip="10.1.0.1", port=50001)
             h.settle()
@@ -251,6 +274,8 @@ class Case:
             self.new_connects()
             self.note_loss()
             return True
+        if outcome == "inbound_then_gone":
+            outcome = "gone"
         if outcome == "pending_inbound_lost":
             # the dial stays pending (no CEA); meanwhile the peer connects inbound, becomes ready, and that
             # connection is lost: the pending dial is still a self-initiated connection, so no second dial
